@@ -223,3 +223,129 @@ Proof.
   - rewrite He. reflexivity.
   - unfold matured. rewrite N1. destruct (Z.leb_spec (l_end l) (s_now st)); [lia|]. rewrite andb_false_r. reflexivity.
 Qed.
+
+(* ---- the unstaking marker lasts: no operation removes or alters it before its end time ---- *)
+Lemma delete_matured_in_noop : forall ys st id st', (forall y, In y ys -> matured st (y_end y) = false) ->
+  delete_matured_in st id ys = Ok st' -> st' = st.
+Proof.
+  induction ys as [|y r IH]; intros st id st' Hn H; cbn [delete_matured_in] in H; [injection H as <-; reflexivity|].
+  rewrite (Hn y (or_introl eq_refl)) in H. apply IH in H; [assumption|]. intros y0 Hy0. apply Hn. right. assumption.
+Qed.
+
+Lemma delete_matured_synths_keeps : forall cfg ids st st' id y, linv cfg st -> delete_matured_synths st ids = Ok st' ->
+  s_synths st id = [y] -> matured st (y_end y) = false -> s_synths st' id = [y].
+Proof.
+  intros cfg. induction ids as [|id0 r IH]; intros st st' id y I H Hs Hm; cbn [delete_matured_synths] in H.
+  - injection H as <-. assumption.
+  - unfold bind in H. destruct (delete_matured_in st id0 (s_synths st id0)) as [st1|] eqn:E1; [|discriminate].
+    assert (X : linv cfg st1 /\ s_now st1 = s_now st /\ s_synths st1 id = [y]).
+    { destruct (Z.eq_dec id0 id) as [->|N].
+      - rewrite Hs in E1. apply delete_matured_in_noop in E1; [subst st1; auto|].
+        intros y0 [<-|[]]. assumption.
+      - apply (delete_matured_in_linv cfg) in E1; [|assumption|apply (marker_staking_end cfg); assumption].
+        destruct E1 as [I1 [N1 [_ [_ [_ O1]]]]]. split; [assumption|]. split; [assumption|]. rewrite O1 by congruence. assumption. }
+    destruct X as [I1 [N1 S1]]. apply (IH st1 st' id y I1 H S1). unfold matured in *. rewrite N1. assumption.
+Qed.
+
+Theorem unstaking_marker_lasts : forall cfg st o st' n id y, wf_cfg cfg -> linv cfg st ->
+  step cfg st o = Ok (st', n) -> s_synths st id = [y] -> y_kind y = Unstaking -> s_now st' < y_end y ->
+  s_synths st' id = [y].
+Proof.
+  intros cfg st o st' n id y W I H Hs Hk Hn.
+  assert (Hc : s_conn st id = None).
+  { pose proof (L_marker _ _ I id) as M. unfold marker in M. rewrite Hs, Hk in M. tauto. }
+  destruct o; cbn [step] in H; unfold bind in H.
+  - (* OLock *) destruct ((amt <=? 0) || (dur <? 0)); [discriminate|]. injection H as <- _. assumption.
+  - (* OTopUp *)
+    destruct (add_tokens_to_lock cfg st owner id0 amt) as [s|] eqn:E; [|discriminate]. injection H as <- _.
+    unfold add_tokens_to_lock in E. destruct (s_locks st id0) as [l|]; [|discriminate].
+    destruct (negb (l_owner l =? owner)); [discriminate|]. destruct (amt <=? 0); [discriminate|].
+    unfold bind in E. destruct (synth_by_lock _ id0) as [found|]; [|discriminate]. injection E as <-.
+    match goal with |- s_synths (increase_sf_delegation ?c ?s ?i ?l ?a) id = _ =>
+      destruct (increase_sf_frame c s i l a) as [Fr _]; apply lproj_fields in Fr; destruct Fr as [_ [_ [_ [F4 _]]]]; rewrite F4 end.
+    destruct found; assumption.
+  - (* ODelegate *)
+    destruct (superfluid_delegate cfg st sender id0 v) as [s|] eqn:E; [|discriminate]. injection H as <- _.
+    apply (superfluid_delegate_linv cfg) in E; [|assumption].
+    destruct E as [_ [l [_ [_ [Hs0 [_ [_ [_ [_ [_ [_ [_ [_ [O _]]]]]]]]]]]]]].
+    assert (id <> id0) by (intros ->; congruence). destruct (O id H) as [_ ->]. assumption.
+  - (* OUndelegate *)
+    destruct (superfluid_undelegate cfg st sender id0) as [s|] eqn:E; [|discriminate]. injection H as <- _.
+    apply (superfluid_undelegate_linv cfg) in E; try assumption.
+    destruct E as [_ [l [d [v [_ [Hc0 [_ [_ [_ [_ [_ [_ [_ [_ [_ [_ [_ O]]]]]]]]]]]]]]]]].
+    assert (id <> id0) by (intros ->; congruence). destruct (O id H) as [_ ->]. assumption.
+  - (* OUnbondLock *)
+    destruct (unbond_lock st id0 sender None) as [[s m]|] eqn:E; [|discriminate]. injection H as <- _. cbn [fst].
+    apply (unbond_lock_linv cfg) in E; [|assumption|discriminate].
+    destruct E as [l [y0 [Hl [_ [_ [Hc0 [_ E]]]]]]].
+    apply (begin_unlock_core_linv cfg) in E; try assumption; [|discriminate].
+    destruct E as [_ [_ [S _]]]. rewrite S. assumption.
+  - (* OUndelegateAndUnbond *)
+    unfold superfluid_undelegate_and_unbond in H.
+    destruct (s_locks st id0) as [l|] eqn:Hl; [|discriminate].
+    destruct (Z.ltb_spec amt 0); [discriminate|]. destruct (Z.eqb_spec amt 0); [discriminate|].
+    destruct (Z.ltb_spec (l_amt l) amt); [discriminate|].
+    destruct (s_conn st id0) as [[d v]|] eqn:Hc0; [|discriminate].
+    assert (Nid : id <> id0) by (intros ->; congruence).
+    unfold bind in H.
+    destruct (superfluid_undelegate cfg st sender id0) as [st1|] eqn:E1; [|discriminate].
+    apply (superfluid_undelegate_linv cfg) in E1; try assumption.
+    destruct E1 as [I1 [l0 [d0 [v0 [Hl0 [Hc1 [Hd0 [Ho0 [He0 [Hdur0 [C1 [S1 [K1 [N1 [T1 [M1 [A1 O1]]]]]]]]]]]]]]]]].
+    rewrite Hl in Hl0. injection Hl0 as <-. rewrite Hc0 in Hc1. injection Hc1 as <- <-.
+    destruct (O1 id Nid) as [_ Hs1]. rewrite Hs in Hs1.
+    destruct (unbond_lock st1 id0 sender (Some amt)) as [[st2 n2]|] eqn:E2; [|discriminate].
+    apply (unbond_lock_linv cfg) in E2; [|assumption|intros x Ex; injection Ex as <-; lia].
+    destruct E2 as [l1 [y1 [Hl1 [Hs1' [_ [_ [_ E2]]]]]]]. rewrite K1, Hl in Hl1. injection Hl1 as <-.
+    apply (begin_unlock_core_linv cfg) in E2; try assumption; [|congruence|intros x Ex; injection Ex as <-; lia].
+    destruct E2 as [I2 [N2 [S2 [C2 [A2 [M2 [_ [_ [_ [_ [_ [U2 Cases]]]]]]]]]]]].
+    destruct (Z.eqb_spec (l_amt l) amt) as [Ea|Na].
+    + destruct (n2 =? id0); [|discriminate]. injection H as <- _. rewrite S2. assumption.
+    + destruct (Z.eqb_spec n2 id0) as [|Nn]; [discriminate|].
+      destruct Cases as [[Hn2 _]|[x [Ex [Hx [Hn2 [T2 [_ K2]]]]]]]; [contradiction|]. injection Ex as <-.
+      destruct (delete_synth st2 id0 Unstaking (l_denom l) v) as [st3|] eqn:E3; [|discriminate].
+      apply (remove_unstaking_linv cfg) in E3; [|assumption].
+      destruct E3 as [I3 [S3 [C3 [K3 [M3 [_ [_ [_ [_ [_ [A3 [N3 [T3 [O3 _]]]]]]]]]]]]]].
+      destruct (superfluid_delegate cfg st3 sender id0 v) as [st4|] eqn:E4; [|discriminate].
+      apply (superfluid_delegate_linv cfg) in E4; [|assumption].
+      destruct E4 as [I4 [l4 [Hl4 [_ [_ [_ [_ [C4 [K4 [N4 [T4 [M4 [_ [O4 _]]]]]]]]]]]]]].
+      destruct (create_synth cfg st4 n2 Unstaking d v) as [st5|] eqn:E5; [|discriminate]. injection H as <- _.
+      apply create_synth_ok in E5. destruct E5 as [_ [l5 [e5 [_ [_ ->]]]]]. ssimpl.
+      assert (id <> n2).
+      { assert (s_synths st id <> []) by congruence. pose proof (L_synth_rng _ _ I _ H). lia. }
+      rewrite upd1_other by assumption. destruct (O4 id Nid) as [_ ->]. rewrite O3 by assumption. rewrite S2. assumption.
+  - (* OBeginUnlock *)
+    destruct (s_locks st id0) as [l|]; [|discriminate]. destruct (negb (l_owner l =? sender)); [discriminate|].
+    destruct (begin_unlock st id0 None) as [[s m]|] eqn:E; [|discriminate]. injection H as <- _. cbn [fst].
+    apply (begin_unlock_linv cfg) in E; [|assumption|discriminate].
+    destruct E as [l0 [_ [_ [_ [_ [_ [S _]]]]]]]. rewrite S. assumption.
+  - (* OBeginUnlockPartial *)
+    destruct (s_locks st id0) as [l|]; [|discriminate]. destruct (negb (l_owner l =? sender)); [discriminate|].
+    destruct (Z.leb_spec amt 0); [discriminate|].
+    apply (begin_unlock_linv cfg) in H; [|assumption|intros x Ex; injection Ex as <-; assumption].
+    destruct H as [l0 [_ [_ [_ [_ [_ [S _]]]]]]]. rewrite S. assumption.
+  - (* OBeginUnlockAll *)
+    destruct (begin_unlock_all st owner (ids_upto (s_last st))) as [s|] eqn:E; [|discriminate]. injection H as <- _.
+    apply (begin_unlock_all_linv cfg) in E; [|assumption].
+    destruct E as [_ [_ [_ [_ [_ [_ [_ [_ [_ [S _]]]]]]]]]]. rewrite S. assumption.
+  - (* OForceUnlock *)
+    destruct (force_unlock cfg st sender id0) as [s|] eqn:E; [|discriminate]. injection H as <- _.
+    apply (force_unlock_linv cfg) in E; [|assumption].
+    destruct E as [_ [_ [_ [_ [_ [_ [_ [_ [_ [_ [_ [_ [S _]]]]]]]]]]]]]. rewrite S. assumption.
+  - (* OWithdraw *)
+    unfold unlock_matured_lock in H. destruct (s_locks st id0) as [l|]; [|discriminate].
+    destruct (l_end l =? 0); [discriminate|]. destruct (s_now st <? l_end l); [discriminate|]. injection H as <- _. assumption.
+  - (* OAdvance *)
+    destruct (dt <? 0); [discriminate|]. injection H as <- _. assumption.
+  - (* OCleanup *)
+    destruct (delete_matured_synths st (ids_upto (s_last st))) as [st1|] eqn:E; [|discriminate]. injection H as <- _.
+    pose proof E as E'. apply (delete_matured_synths_linv cfg) in E'; [|assumption]. destruct E' as [_ [N1 _]].
+    unfold withdraw_matured in *. ssimpl.
+    apply (delete_matured_synths_keeps cfg _ st st1 id y I E Hs).
+    unfold matured. destruct (Z.leb_spec (y_end y) (s_now st)); [lia|]. apply andb_false_r.
+  - (* OEpoch *)
+    unfold epoch, bind in H. destruct (set_mults st ins) as [st1|] eqn:E1; [|discriminate].
+    destruct (refresh_list cfg st1 (refresh_order st1 order)) as [st2|] eqn:E2; [|discriminate]. injection H as <- _.
+    apply set_mults_frame in E1. destruct E1 as [E1 _]. apply refresh_list_frame in E2. destruct E2 as [E2 _].
+    apply lproj_fields in E1. apply lproj_fields in E2.
+    destruct E1 as [_ [_ [_ [F4 _]]]]. destruct E2 as [_ [_ [_ [G4 _]]]]. rewrite G4, F4. assumption.
+Qed.
